@@ -28,3 +28,6 @@ CLAIMED['C18'] = (
 CLAIMED['C19'] = (
     'CrossHair+z3: symbolic endpoint string through security.is_sanctioned; solver-exhausted request-path and endpoint/method/certificate/hook matrices through the real fe._static and DynamicContent.render_*',
     'All endpoint strings within the length bound; every request path within the segment pool/length bound; full registered-endpoint matrix.', _BASE_NOTE, 'DESIGN.md section 5 C19')
+CLAIMED['C09'] = (
+    'CrossHair+z3 shape-symbolic exploration: dependency/granularity/feedback matrices as z3 selectors, real dag.Construct run on each generated engine and compared with the declarations',
+    'Every engine within the stated size/granularity bound is covered (solver-exhausted matrices); nothing is claimed for larger engines.', _BASE_NOTE, 'DESIGN.md section 5 C09')
